@@ -104,10 +104,20 @@ def build_harness():
         return p
 
 
-def regen_facts(sites=False):
+HARNESS_RACE = os.path.join(BIN, "harness_race")
+
+
+def build_harness_race():
+    """the same harness compiled with the Go race detector"""
+    build_harness()
+    with Lock("gobuild"):
+        return run(["go", "build", "-race", "-tags", "verif", "-o", HARNESS_RACE, "."], cwd=os.path.join(VERIF, "harness"), env=dict(GOENV, CGO_ENABLED="1"))
+
+
+def regen_facts(sites=False, locks=False):
     """rewrite lean/ShipVerif/Generated/*.lean from /repo; returns (changed files, error)"""
     build_tools()
-    p = run([EXTRACT, "-repo", REPO, "-out", os.path.join(LEAN, "ShipVerif", "Generated")] + (["-sites"] if sites else []), cwd=VERIF)
+    p = run([EXTRACT, "-repo", REPO, "-out", os.path.join(LEAN, "ShipVerif", "Generated")] + (["-sites"] if sites else []) + (["-locks"] if locks else []), cwd=VERIF)
     if p.returncode != 0:
         return [], p.stdout
     changed = [l.split()[1] for l in (p.stdout or "").splitlines() if l.startswith("changed ")]
